@@ -65,6 +65,14 @@ def run_case(desc):
         d = float(np.max(np.abs(comb[k] - (al * base[k] + be * rv[k]))))
         require(d <= tol * (abs(al) + abs(be) + 1), f"not-linear-{kind}", f"{k}: R({al}u+{be}v) differs from {al}R(u)+{be}R(v) by {d:.3g} (tol {tol:.2g})")
 
+    # 1b. pure scaling over many orders of magnitude (results scale with the driver, whatever the unit)
+    sc = desc.get("scale", 1e-10)
+    rs, _ = run_model(cfg, sc * u)
+    runs += 1
+    for k in KEYS:
+        d = float(np.max(np.abs(rs[k] - sc * base[k])))
+        require(d <= tol * abs(sc), f"not-linear-{kind}", f"{k}: R({sc:g} u) differs from {sc:g} R(u) by {d:.3g} (tol {tol * abs(sc):.2g})")
+
     # 2. every unit impulse of the driver: causal, confined to its label, and a basis of R(u)
     sf = np.array(sobj.lifetime_model.sf, float)
     acc = {k: np.zeros_like(base[k]) for k in KEYS}
@@ -153,6 +161,7 @@ def cases(draw, max_n=6):
         "alpha": draw(st.sampled_from([-2, -1, 2, 3])),
         "beta": draw(st.sampled_from([-1, 1, 2])),
         "shift": draw(st.sampled_from([1, -7, 100, 0.5, 12.25])),
+        "scale": draw(st.sampled_from([1e-12, 1e-10, 1e-9, 1e-4, 1e5, 1e9])),
     }
 
 
